@@ -67,6 +67,7 @@ def prepare(path: str, only: Optional[re.Pattern] = None, src: Optional[str] = N
     gen = os.path.join(C.GEN, os.path.basename(path))
     with open(gen, "w") as f:
         f.write(out)
+    _mods.pop(gen, None)  # rewritten: a cached import would be stale
     t2 = ast.parse(out)
     where = {}
     for node in t2.body:
@@ -77,6 +78,7 @@ def prepare(path: str, only: Optional[re.Pattern] = None, src: Optional[str] = N
     return gen, where
 
 
+_mods: dict[str, object] = {}
 _MSG = re.compile(r"^(?P<file>.*?):(?P<line>\d+): (?P<kind>error|info|warning): (?P<msg>.*)$")
 
 
@@ -146,9 +148,6 @@ def run(conds: list[Cond], jobs: int = 0) -> list[Res]:
     jobs = jobs or C.JOBS
     with cf.ThreadPoolExecutor(max_workers=jobs) as ex:
         return list(ex.map(_run_retry, conds))
-
-
-_mods: dict[str, object] = {}
 
 
 def load(genfile: str):
